@@ -183,6 +183,15 @@ def apply_mod(data, mod):
         # beta-majority open shell
         data = apply_mod(data, {"op": "mo_aminusb"})
         data.mo.occs_aminusb = -np.array(data.mo.occs_aminusb)
+    elif op == "bonds_unsorted":
+        # a bond table in no particular order: higher atom index first in every other row, rows reversed
+        nat = data.natom or 0
+        if data.bonds is not None and len(data.bonds):
+            b = np.array(data.bonds)
+            b[::2, [0, 1]] = b[::2, [1, 0]]
+            data.bonds = b[::-1].copy()
+        elif nat >= 2:
+            data.bonds = np.array([[nat - 1, 0, 1]] + ([[1, 0, 2]] if nat >= 3 else []))
     elif op == "unsorted_centres":
         # shells not grouped by centre (orbital coefficient rows permuted along: same wavefunction)
         shells = list(data.obasis.shells)
@@ -240,7 +249,7 @@ def apply_mod(data, mod):
         s0 = shells[0]
         new0 = Shell(s0.icenter, np.concatenate([s0.angmoms, s0.angmoms[:1]]),
                      np.concatenate([s0.kinds, s0.kinds[:1]]), np.array(s0.exponents),
-                     np.concatenate([s0.coeffs, s0.coeffs[:, :1] * 0.5], axis=1))
+                     np.concatenate([s0.coeffs, s0.coeffs[:, :1] * mod.get("scale", 0.5)], axis=1))  # scale 0: a padding column of a general-contraction table
         shells[0] = new0
         obasis = MolecularBasis(shells, data.obasis.conventions, data.obasis.primitive_normalization)
         extra_nb = new0.nbasis - s0.nbasis
@@ -393,6 +402,11 @@ def random_mol_fields(rng, natom=None, with_bonds=False, with_charges=False, tit
             pairs.add((i, j))
         if pairs:
             f["bonds"] = [[i, j, rng.choice([1, 2, 3, 5])] for i, j in sorted(pairs)]
+            # bond tables are not canonical: either atom of a pair may come first, and the rows need not be sorted
+            if rng.random() < 0.5:
+                f["bonds"] = [[j, i, t] if rng.random() < 0.5 else [i, j, t] for i, j, t in f["bonds"]]
+            if rng.random() < 0.3:
+                rng.shuffle(f["bonds"])
     if with_charges:
         f["atcharges"] = {"mol2charges": nd([round(rng.uniform(-1, 1), 3) for _ in range(natom)], "float")}
     if pdb:
